@@ -12,7 +12,8 @@ def plan(tier):
           (PG.idle_then_submit(2, 0.05), 1, PT), (PG.idle_then_submit(1, 0.05, "ok"), 1, PT),
           (PG.bursts(2, 0.05), 1, PT), (PG.timeout_resize(2, 1), 1, PT),
           (PG.timeout_resize(1, 3), 1, PT), (PG.two_submitters(2, 0.05), 1, PT),
-          (PG.basic(3, 0.05), 1, PT)]
+          (PG.basic(3, 0.05), 1, PT), (PG.memory_leak_respawn(1), 1, PT),
+          (PG.memory_leak_respawn(2, None, "nowait"), 1, PT)]
     if tier == "thorough":
         pl += [(PG.warm_then(1, 0.05, "await"), 2, PT), (PG.warm_then(2, 0.05, "await"), 2, dict(kinds=("T",))),
                (PG.idle_then_submit(2, 0.05), 2, dict(kinds=("T",))),
